@@ -64,6 +64,10 @@ CLAIMED["C07"] = ("model_checking", "5 C07",
     "Inductive step on the real ListBox over abstract items with symbolic heights and selectability from an arbitrary (offset, inset, focus) state: each key, mouse event, "
     "focus request, resize and walker edit followed by render; the window read from the canvas shards is shown to be a gap-free slice containing the focus, on every path.",
     "z3 trusted; 3 (quick) / 4 (thorough) items of height <= 3 / 5, boxes <= 5 / 7 rows; representation invariant of DESIGN section 5 re-proved.")
+CLAIMED["C17"] = ("model_checking", "5 C17",
+    "decompose_tagmarkup on markup trees with symbolic leaves and solver-chosen tags; Text.render with symbolic attribute run lengths and solver-chosen character classes "
+    "(per-byte attribute of every output cell compared with the source character's attribute); fill_attr_apply / AttrMap chains; SGR sequences of the real Screen decoded by an SGR reader.",
+    "z3 trusted; text length <= 3, width <= 3 (quick) / 5; the SGR decoder in the harness is part of the trusted base.")
 NOT_YET = {}
 TECH = "bounded symbolic execution of the real urwid code (AST-lifted import of /repo) with z3 deciding every path obligation; counterexamples replayed on the un-lifted code"
 def main():
